@@ -134,7 +134,7 @@ const TYPE_FORMS: &[&str] = &[
 ];
 const WHERE_FORMS: &[&str] = &[
     "X: Clone", "X: Clone + Copy", "X: ?Sized", "X: 'static", "'a: 'b", "for<'a> X: Tr<'a>", "X: for<'a> Tr<'a>", "X: Tr<A = i32>", "X: m::Tr", "[X; 2]: Tr", "<X as Tr>::Y: Clone", "X: ~const Tr", "X: Clone,", "X: Clone, X: Copy",
-    "X:", "(): Tr", "X: Fn(i32) -> i32", "X: Tr<{ 1 }>", "X: !Tr", "X: const Tr", "i32: Into<X>", "X = i32", "X: Tr + ?Sized + 'static",
+    "X:", "(): Tr", "X: Fn(i32) -> i32", "X: Tr<{ 1 }>", "X: !Tr", "X: const Tr", "i32: Into<X>", "X = i32", "X: Tr + ?Sized + 'static", "X: Lend<Item<'a> = &'a u8>", "X: Tr<Y: Clone>",
 ];
 
 pub fn gen_token_forms(ctx: &mut Ctx) -> Option<(String, Vec<String>)> {
